@@ -119,8 +119,15 @@ def write_tmp(data: bytes) -> str:
     return path
 
 
-def regen(chk: core.Check):
+def regen(chk: core.Check, python_side=True):
     g = gen.gen_raw_consts()
     if not g["ok"]:
         chk.obligation_broken("translator", "extract constants/masks from raw_io.hh / raw_io.cc", g["error"])
+    if not python_side:
+        return g["ok"]
+    g2 = gen.gen_rawpy()
+    if not g2["ok"]:
+        chk.obligation_broken("translator", "translate raw_io.py (framing, batch step, arrays loop, concatenate) into Gen/RawPy.lean", g2["error"])
+    else:
+        chk.coverage["rawpy_translation"] = {k: (v if len(str(v)) < 200 else str(v)[:200]) for k, v in g2["info"].items()} if isinstance(g2["info"], dict) else str(g2["info"])[:300]
     return g["ok"]
